@@ -3,7 +3,7 @@
 import json, os, subprocess, sys
 V = os.path.dirname(os.path.dirname(os.path.abspath(__file__)))
 for e in json.load(open(os.path.join(V, "tools", "seedmeta.json"))):
-    tag = e["id"] if e["root"] == "/tmp/seed" else "R2" + e["id"]
+    tag = {"/tmp/seed": "", "/tmp/seed2": "R2", "/tmp/seed3": "R3"}[e["root"]] + e["id"]
     rf = "/tmp/seed/results/%s_%s.json" % (tag, e["k"])
     if not os.path.exists(rf):
         print("no result yet:", e["name"]); continue
